@@ -210,6 +210,41 @@ fn decode(kind: Kind, bytes: &[u8]) -> Result<Wire, String> {
     }
 }
 
+/// seed corpus for the libFuzzer targets: valid frames / packed keys from the generators, one file each
+/// (frames: first byte selects the decode site, as the target reads it)
+pub fn write_corpus(dir: &std::path::Path, n: usize, seed: u64) -> std::io::Result<usize> {
+    use proptest::{strategy::ValueTree, test_runner::{Config, RngSeed, TestRunner}};
+    std::fs::create_dir_all(dir.join("frames"))?;
+    std::fs::create_dir_all(dir.join("keys"))?;
+    let mut runner = TestRunner::new(Config { rng_seed: RngSeed::Fixed(seed), failure_persistence: None, ..Config::default() });
+    let mut written = 0;
+    for i in 0..n {
+        if let Ok(t) = msg_strategy().new_tree(&mut runner) {
+            let m = t.current();
+            if let Ok(bytes) = encode(&to_wire(&m)) {
+                let k: u8 = match kind_of(&m) {
+                    Kind::Uni => 0,
+                    Kind::Bi => 1,
+                    Kind::Sync => 2,
+                };
+                let mut b = vec![k];
+                b.extend_from_slice(&bytes);
+                std::fs::write(dir.join("frames").join(format!("f{i:04}")), b)?;
+                written += 1;
+            }
+        }
+        if let Ok(t) = pack_strategy().new_tree(&mut runner) {
+            let c = t.current();
+            let vals: Vec<SqliteValue> = c.cols.iter().map(to_val).collect();
+            if let Ok(bytes) = klukai_types::pubsub::pack_columns(&vals) {
+                std::fs::write(dir.join("keys").join(format!("k{i:04}")), bytes)?;
+                written += 1;
+            }
+        }
+    }
+    Ok(written)
+}
+
 fn kind_of(m: &GMsg) -> Kind {
     match m {
         GMsg::Uni { .. } => Kind::Uni,
@@ -747,9 +782,10 @@ pub fn check_hostile_pack(case: &HostilePack, info: &mut CaseInfo) -> Result<(),
 }
 
 pub fn unpack_hostile(bytes: &[u8], info: &mut CaseInfo) -> Result<(), Fail> {
-    let (res, st) = alloc::tracked(HARD_CAP, || {
-        std::panic::catch_unwind(std::panic::AssertUnwindSafe(|| unpack_columns(bytes).map(|v| v.iter().map(|x| x.to_owned()).collect::<Vec<_>>())))
-    });
+    // the decoder alone is measured; the owned copies the oracle needs (512-byte inline buffers per value) are made
+    // outside the tracked section
+    let (res, st) = alloc::tracked(HARD_CAP, || std::panic::catch_unwind(std::panic::AssertUnwindSafe(|| unpack_columns(bytes).map(|v| v.len()))));
+    let res = res.map(|r| r.and_then(|_| unpack_columns(bytes).map(|v| v.iter().map(|x| x.to_owned()).collect::<Vec<_>>())));
     match res {
         Err(p) => {
             let m = panic_msg(&p);
@@ -757,7 +793,8 @@ pub fn unpack_hostile(bytes: &[u8], info: &mut CaseInfo) -> Result<(), Fail> {
             Err(if m.contains("shift left") { f.finding("C09-unpack-sign-extension") } else { f.finding("C09-unpack-panics-on-malformed-key") })
         }
         Ok(r) => {
-            ensure!(st.peak <= alloc_bound(bytes.len()) + 64 * 256, "allocation-bounded-by-input", "unpack_columns allocated {} B for {} input bytes", st.peak, bytes.len());
+            // one input byte can be one column: a 32-byte reference in a vector that grows by doubling
+            ensure!(st.peak <= 64 * 1024 + 128 * bytes.len(), "allocation-bounded-by-input", "unpack_columns allocated {} B for {} input bytes", st.peak, bytes.len());
             if let Ok(vals) = r {
                 info.class("hostile-key-accepted");
                 for v in &vals {
